@@ -117,12 +117,14 @@ fn any_sid() -> StreamId {
     )
 }
 
-/// Receive buffer of a stream whose content is SEQ[0..f): `nread` bytes already read, SEGS (0/1)
-/// further stored segment [a, b) with nread <= a < b <= f. Returns (buffer, nread, contiguous end).
-fn any_rcvbuf<const SEGS: usize>(f: u64) -> (rcvbuf::RecvBuf, u64, u64) {
+/// Receive buffer of a stream whose content is SEQ[0..f): NREAD bytes already read, and (if A < B)
+/// one further stored segment [A, B) with NREAD <= A. The pre-state is concrete per harness instance
+/// (symbolic buffer shapes are C08's business and make every RecvBuf call cost minutes); the final
+/// size, the arriving frame and the reader's capacity are symbolic.
+/// Returns (buffer, nread, contiguous end).
+fn any_rcvbuf<const NREAD: u64, const A: u64, const B: u64>() -> (rcvbuf::RecvBuf, u64, u64) {
     let mut buf = rcvbuf::RecvBuf::default();
-    let nread: u64 = kani::any();
-    kani::assume(nread <= f);
+    let nread: u64 = NREAD;
     if nread > 0 {
         buf.recv(0, content(0, nread));
         let mut sink = Sink::new(8, 0);
@@ -130,13 +132,11 @@ fn any_rcvbuf<const SEGS: usize>(f: u64) -> (rcvbuf::RecvBuf, u64, u64) {
         assert!(n as u64 == nread);
     }
     let mut contiguous = nread;
-    if SEGS == 1 {
-        let a: u64 = kani::any();
-        let b: u64 = kani::any();
-        kani::assume(nread <= a && a < b && b <= f);
-        buf.recv(a, content(a, b));
-        if a == nread {
-            contiguous = b;
+    if A < B {
+        assert!(nread <= A);
+        buf.recv(A, content(A, B));
+        if A == nread {
+            contiguous = B;
         }
     }
     assert!(buf.nread() == nread && buf.nread() + buf.available() == contiguous);
@@ -144,11 +144,11 @@ fn any_rcvbuf<const SEGS: usize>(f: u64) -> (rcvbuf::RecvBuf, u64, u64) {
 }
 
 /// SIZE_KNOWN: the FIN arrived before (state SizeKnown) or not yet (state Recv).
-fn recv_data_step<const SEGS: usize, const SIZE_KNOWN: bool>() {
-    // the stream the peer is sending: F bytes
+fn recv_data_step<const NREAD: u64, const A: u64, const B: u64, const SIZE_KNOWN: bool>() {
+    // the stream the peer is sending: F bytes (everything already buffered lies below F)
     let f: u64 = kani::any();
-    kani::assume(f <= W);
-    let (rcvbuf, nread, contiguous) = any_rcvbuf::<SEGS>(f);
+    kani::assume(f <= W && f >= NREAD && f >= B);
+    let (rcvbuf, nread, contiguous) = any_rcvbuf::<NREAD, A, B>();
     let sid = any_sid();
     let parked: bool = kani::any();
     // a reader parks only when nothing is readable
@@ -234,7 +234,7 @@ fn recv_data_step<const SEGS: usize, const SIZE_KNOWN: bool>() {
             assert!(n == if (cap as u64) < avail { cap as u64 } else { avail } && sink.in_order, "the remaining bytes, in order");
             assert!((n == 0) == (nread == f), "end-of-stream (0 bytes) is reported only after the last byte was read");
             assert!(r.is_all_read() == (nread + n == f), "DataRead exactly when everything was read");
-            kani::cover!(SIZE_KNOWN || n == 0, "EOF");
+            kani::cover!(SIZE_KNOWN || B > NREAD || n == 0, "EOF");
             kani::cover!(n > 0 && nread + n < f, "partial read before EOF");
         }
         _ => panic!("unexpected state"),
@@ -252,7 +252,7 @@ fn recv_data_step<const SEGS: usize, const SIZE_KNOWN: bool>() {
     }
     assert!(fresh as u64 <= end - off);
     kani::cover!(into_rcvd && fin, "FIN completes the stream");
-    kani::cover!(SEGS == 0 || !SIZE_KNOWN || (into_rcvd && !fin), "the last missing bytes arrive after the FIN / fill the hole");
+    kani::cover!(!SIZE_KNOWN || (into_rcvd && !fin), "the last missing bytes arrive after the FIN");
     kani::cover!(fin && !into_rcvd, "FIN before the data: size known, bytes missing");
     drop(guard);
     core::mem::forget(incoming);
@@ -272,7 +272,12 @@ macro_rules! fin_harness {
     };
 }
 
-fin_harness!(c01_fin_recv_data_s0, recv_data_step::<0, false>());
-fin_harness!(c01_fin_recv_data_s1, recv_data_step::<1, false>());
-fin_harness!(c01_fin_size_known_data_s0, recv_data_step::<0, true>());
-fin_harness!(c01_fin_size_known_data_s1, recv_data_step::<1, true>());
+// Instances of the pre-state: (NREAD, [A, B)) = nothing yet; 1 byte read + hole + [3,5); 2 bytes
+// read + adjacent unread [2,4).
+fin_harness!(c01_fin_recv_data_empty, recv_data_step::<0, 0, 0, false>());
+fin_harness!(c01_fin_recv_data_read2, recv_data_step::<2, 0, 0, false>());
+fin_harness!(c01_fin_recv_data_hole, recv_data_step::<1, 3, 5, false>());
+fin_harness!(c01_fin_recv_data_adjacent, recv_data_step::<2, 2, 4, false>());
+fin_harness!(c01_fin_size_known_empty, recv_data_step::<0, 0, 0, true>());
+fin_harness!(c01_fin_size_known_hole, recv_data_step::<1, 3, 5, true>());
+fin_harness!(c01_fin_size_known_adjacent, recv_data_step::<2, 2, 4, true>());
